@@ -23,7 +23,7 @@ class C15(Prop):
     level = "exploration"
     tiers = {
         "quick": [("plain", 180000), ("jitter", 72000), ("cancel", 72000)],
-        "thorough": [("plain", 3600000), ("jitter", 1440000), ("cancel", 1440000)],
+        "thorough": [("plain", 3600000), ("jitter", 1440000), ("cancel", 1440000), ("plain-deep", 400000), ("jitter-deep", 150000), ("cancel-deep", 150000)],
     }
     rule_text = (
         "one case = arrival pattern of 1..12 calls (gaps from {0, eps, period-eps, period, period+eps, period/2, "
@@ -37,13 +37,15 @@ class C15(Prop):
     }
 
     def sim_options(self, profile):
-        return {"max_boundaries": 8000, "jitter_steps": 3 if profile == "jitter" else 0}
+        return {"max_boundaries": 8000, "jitter_steps": 3 if profile.removesuffix("-deep") == "jitter" else 0}
 
     def execute(self, sim, profile):
         from haiway import throttle
 
         s = sim.source
-        limit = 1 + s.weighted((4, 3, 2, 1), "limit")
+        deep = profile.endswith("-deep")
+        profile = profile.removesuffix("-deep")
+        limit = (1 + s.draw(8, "limit")) if deep else (1 + s.weighted((4, 3, 2, 1), "limit"))
         pk = s.draw(7, "period")
         p_steps = (128, 256, 1024, 128, 1024, 86400 * 1024, 90000 * 1024 + 512)[pk]
         period = p_steps * GRID
@@ -57,7 +59,7 @@ class C15(Prop):
             period_arg = timedelta(days=1, hours=1, milliseconds=500)
         else:
             period_arg = period
-        n = 1 + s.geometric(11, 5, "ncalls")
+        n = (6 + s.geometric(34, 12, "ncalls")) if deep else (1 + s.geometric(11, 5, "ncalls"))
         gaps = (0, 0, 1, p_steps - 1, p_steps, p_steps + 1, p_steps // 2, 2 * p_steps)
         durs = (0, 0, p_steps // 2, p_steps, 2 * p_steps)
         t = (0, 5, p_steps)[s.draw(3, "t0")]
